@@ -506,9 +506,21 @@ func genRequest(r *rand.Rand, e *env, t int) request {
 		q.Form = "prop"
 		q.Names = genNames(r)
 		q.Body = string(xmltree.Render(davx.PropFindTree("prop", q.Names), lx))
-	case k < 25:
+	case k < 24:
 		q.Form = "allprop"
 		q.Body = string(xmltree.Render(davx.PropFindTree("allprop", nil), lx))
+	case k < 25:
+		// RFC 4918 9.1 / 14.8: allprop with an include list (names the
+		// resource has, lacks, repeats)
+		q.Form = "allprop-include"
+		q.Names = genNames(r)
+		root := davx.PropFindTree("allprop", nil)
+		inc := xmltree.El(nsDAV, "include")
+		for _, n := range q.Names {
+			inc.Add(xmltree.El(n[0], n[1]))
+		}
+		root.Add(inc)
+		q.Body = string(xmltree.Render(root, lx))
 	case k < 29:
 		q.Form = "propname"
 		q.Body = string(xmltree.Render(davx.PropFindTree("propname", nil), lx))
